@@ -341,7 +341,7 @@ def jobs(tier, seed):
         fps = ['wrap']
     else:
         shapes = [(1, 1), (2, 1), (3, 1), (2, 2), (3, 2), (4, 1), (4, 2), (3, 3)]
-        lats = pool.ALL_LATTICES
+        lats = pool.ALL_LATTICES + ['rand_a', 'rand_b']
         fps = ['wrap', 'disp']
     for T, A in shapes:
         js.append(dict(name=f'wrap_T{T}_A{A}', fn='wrap_job', params=dict(T=T, A=A)))
